@@ -62,6 +62,16 @@ CLAIMED = {
             "TLC checks that the receive loop never blocks on a hand-over nobody takes and always returns to reading. Histories over a 22-member server alphabet (every MTProto service constructor, API objects as updates, unknown / truncated / empty bodies, empty and nested containers, unsolicited and repeated results, bad_msg_notification, transport error code, garbage and short frames) - singly with and without warning channel + handler, in seeded pairs, and with orderly close at message boundaries - are played to the real client in a child process; TLC judges: process alive, probes complete, updates surfaced, reconnect without a new key exchange.",
             "the reference server (harness/refsrv, independent TL/IGE/envelope/handshake) plays the specification's server; hook gates (tag verif) only steer schedules, verdicts come from what the server and the callers observed; a stall needs a recorded time-out with goroutine dump; the warning channel is drained by the harness",
             "5 C16"),
+    "C06": ("model_checking",
+            "TLA+ spec (Handshake.tla, symbolic fixed-width values) model-checked with TLC; every leading-zero corner forced in real key exchanges against the reference server; traces validated by TLC (HandshakeTrace.tla)",
+            "TLC checks over every assignment of 0/1/2 leading zero bytes to {nonce, server_nonce, new_nonce, new_nonce_hash1, RSA block, g^ab} that with fixed-width conversions both sides derive the same key and salt, the exchange completes and the session is stored; each as-coded Strip*/RsaLeftAligned deviation must break it. The corners are then forced in real exchanges in child processes (server draws through the reference server's hooks, client nonces and DH exponent through verif hooks, hash/RSA/g^x corners by search), together with pq shapes up to 2^64 and unforced honest exchanges; TLC judges: CreateConnection nil, same 256-byte key (key id), same salt, session stored, first encrypted request opens under the server's key with the right salt.",
+            "reference server independent of /repo; 64-bit DH exponents in forced corners (Telegram's 2048-bit group); RSA-2048 key generated per run",
+            "5 C06"),
+    "C07": ("model_checking",
+            "TLA+ spec (Handshake.tla lies) model-checked with TLC; the reference server lies exactly once per real key exchange; traces validated by TLC (HandshakeTrace.tla)",
+            "TLC checks for every (step, field) lie and every leading-zero assignment that the exchange ends aborted with nothing stored and no encrypted request, never in a panic state; omitting any single check (sampled) or panicking on a bad answer hash must break it. In real exchanges the reference server corrupts one reply field of resPQ / server_DH_params_ok / server_DH_inner_data / dh_gen_ok by bit flip (seeded positions; every bit in thorough), fresh value, the other nonce or zero, or answers with the failure / retry constructors; TLC judges: CreateConnection returns an error (no panic), store empty, no encrypted frame at the server.",
+            "a panic inside CreateConnection is recovered by the harness and counted as a violation (not an abort with an error)",
+            "5 C07"),
 }
 
 NOT_YET = {}
